@@ -123,6 +123,17 @@ fn js_result_slot_probe(rep: &mut Report) {
         src += &format!("        pub fn m{i}x(&self) -> Result<{ok}, {err}> {{ unimplemented!() }}\n");
     }
     src += "    }\n}\n";
+    // the model of the slot computation (JsSlot.lean; Props/C10 proves it is the wire layout) on the same grid
+    let wty = |n: &str| -> String { match n {
+        "()" => "unit".into(), "u8" | "bool" => "(s 1)".into(), "i16" => "(s 2)".into(), "u32" => "(s 4)".into(), "f64" => "(s 8)".into(),
+        "Tiny" => "(st (s 1))".into(), "Two" => "(st (s 1) (s 1))".into(), "Half" => "(st (s 2))".into(), "Five" => "(st (s 1) (s 1) (s 1) (s 1) (s 1))".into(),
+        "Four" => "(st (s 4))".into(), "Six" => "(st (s 2) (s 2) (s 2))".into(), "Wide" => "(st (s 8))".into(), "Mix" => "(st (s 1) (s 8))".into(), "Nine" => "(st (s 8) (s 1))".into(),
+        o => panic!("{o}") } };
+    let mlines: Vec<String> = grid.iter().map(|(ok, err, _)| format!("(c10slot {} {})", wty(ok), wty(err))).collect();
+    let model: Vec<String> = match crate::model::run_model("C10", &mlines) {
+        Ok(m) => m,
+        Err(e) => { rep.disagree("js-result-slot", "model-driver", "", &e); vec![] }
+    };
     for abi in ["legacy", "spec"] {
         let mut cfg = diplomat_tool::config::Config::default();
         cfg.set("js.abi", toml::Value::String(abi.into()));
@@ -145,6 +156,12 @@ fn js_result_slot_probe(rep: &mut Report) {
             let nums: Vec<usize> = body[p + 25..].split(|c: char| !c.is_ascii_digit()).filter(|x| !x.is_empty()).take(2).filter_map(|x| x.parse().ok()).collect();
             if nums.len() != 2 { continue; }
             let (js_size, js_align) = (nums[0], nums[1]);
+            if let Some(m) = model.get(i) {
+                rep.count("js-result-slot-model-tie");
+                if *m != format!("{js_size} {js_align}") {
+                    rep.disagree(&format!("{} js.abi={abi} ;; Result<{ok}, {err}>", mlines[i]), "js-result-slot", &format!("{js_size} {js_align}"), m);
+                }
+            }
             if js_size - 1 != *flag || js_align < *align {
                 rep.oracle_fail(&format!("(c10 probe js-result-slot Result<{ok}, {err}> js.abi={abi})"), "the JS return slot of a result is not Rust's DiplomatResult: is_ok is read from another byte than Rust writes it to, or the slot is less aligned than the value", json!({"js_reads_is_ok_at": js_size - 1, "rust_is_ok_at": flag, "js_slot_size": js_size, "rust_size": size, "js_slot_align": js_align, "rust_align": align}));
             }
